@@ -34,7 +34,7 @@ LATE = {
  'C06-k': 'MISSED when first run: `insert_unchecked` lowers the length only on the type-erased branch; every lazy-clone harness used an erased source, so the known-type branch never ran user code. Added a user-implemented cloneable source with `type Type = T` (k2_insert::KnownSrc, insert/push_lazy_clone_known_e8)',
  'C10-k': 'first run: UNDECIDED (inventory guard): a new provided `MemResizable::shrink_to_fit(used)` that `HeapMem` overrides to skip small shrinks; the capacity contracts ran on the ghost backend only. Added k1_heap::heap_vec_capacity_h: shrink_to / shrink_to_fit / reserve / reserve_exact of a REAL heap-backed vector against the allocator protocol',
  'C10-l': 'MISSED when first run under C10: clone() on a backend whose fresh storage is non-empty but too small ends with len > capacity; the clone contract caught it, but served C08/C03/C05/C06 only. "len <= capacity always" is now served by a clone / insert / splice representative',
- 'C05-l': 'MISSED when first run under C05: the replacement loop of `Splice::drop` writes once before testing the bound, which shows only for an iterator reporting length 0; the misreporting-iterator contract caught it but served C06 only. Every operation-contract harness now serves C03, C05 and C06',
+ 'C05-l': 'MISSED when first run under C05: the replacement loop of `Splice::drop` writes once before testing the bound, which shows only for an iterator reporting length 0; the misreporting-iterator contract caught it but served C06 only. The misreporting-iterator harness now serves C05 explicitly (and, in the thorough tier, every operation-contract harness serves C03, C05 and C06)',
  'C18-k': 'predicted from the agent\'s summary (before running): the new `heap_expand_exact` harness had its zero-sized instance in the thorough tier only; moved to quick',
  'C08-k': 'predicted from the agent\'s summary: nothing called `Clone::clone_from`. Added k1_loops::clone_from_h on real memory (type, layout, values, clone function taken over, capacity boundary)',
  'C04-j': 'MISSED when first run: a new provided `Mem::element_size()` that only `StackNMem` overrides (SIZE / N) feeds `ElementPointer::size()`; the operation contracts run on the ghost backend, which takes the default. Added k1_views::inline_views_h: views and handle reports on the REAL Stack / StackN backends instantiated with slack bytes',
